@@ -102,7 +102,7 @@ namespace {
         J op = J::object();
         const int a = int(plan.below(uint64_t(T)));
         op["a"] = J(a);
-        const int kind = int(plan.below(25));
+        const int kind = int(plan.below(26));
         switch (kind) {
         case 0:
           op["k"] = J("shared");
@@ -165,6 +165,7 @@ namespace {
           op["k"] = J("gaddc");
           op["j"] = J(int(plan.below(uint64_t(n_contended))));
           op["v"] = J(value_ctr++);
+          op["via"] = J(int(plan.below(2))); // add_global_const / add_global (both refuse an existing name)
           break;
         case 11:
           if (!on(4)) continue;
@@ -238,6 +239,11 @@ namespace {
           op["k"] = J("readtype");
           op["j"] = J(int(plan.below(2)));
           break;
+        case 25:
+          if (!on(8)) continue;
+          op["k"] = J("usebad"); // use() of a file whose evaluation throws half-way
+          op["via"] = J(int(plan.below(2)));
+          break;
         }
         ops.push(std::move(op));
       }
@@ -287,6 +293,8 @@ namespace {
         }
         body += "def from_use(x) { x + 1000 }\n";
         write_file(dir + "shared_use.chai", body);
+        // a file that fails after it has had effects: it is not recorded as used, every use() evaluates it again
+        write_file(dir + "bad_use.chai", "bump_bad();\nbump_bad();\nthrow(\"bad file\");\nbump_bad();\n");
       }
       // file calls of use() under this directory become scheduling points (no faults injected here)
       fl_reset();
@@ -305,9 +313,10 @@ namespace {
         maker.join();
         r.counters["probe_engine_created_by_a_thread_that_ended"] += 1;
       }
-      std::atomic<int> bumps{0};
+      std::atomic<int> bumps{0}, bad_bumps{0};
       std::vector<ActorState> st(size_t(T) + 1);
       chai->add(fun([&bumps]() { bumps.fetch_add(1, std::memory_order_relaxed); }), "bump");
+      chai->add(fun([&bad_bumps]() { bad_bumps.fetch_add(1, std::memory_order_relaxed); }), "bump_bad");
       chai->add(fun([&st](int n) { st[size_t(sim_self() + 1)].trace.push_back(n); }), "t");
       chai->add(fun([](const Base &b) { return b.base_val(); }), "takes_base");
       chai->add(fun([]() { return Derived(); }), "make_derived");
@@ -382,7 +391,11 @@ namespace {
               out = eval_show(e, "gu_" + sn("id"));
             } else if (k == "gaddc") {
               try {
-                e.add_global_const(const_var(int(num("v"))), "gc_" + sn("j"));
+                if (op.has("via") && num("via") == 1) {
+                  e.add_global(var(int(num("v"))), "gc_" + sn("j"));
+                } else {
+                  e.add_global_const(const_var(int(num("v"))), "gc_" + sn("j"));
+                }
                 out = "=void";
               } catch (const exception::name_conflict_error &) {
                 out = "!name_conflict|";
@@ -460,6 +473,17 @@ namespace {
                   out = "!" + describe_current_exception(&e);
                 }
               }
+            } else if (k == "usebad") {
+              if (num("via") == 0) {
+                out = eval_show(e, "use(\"bad_use.chai\")");
+              } else {
+                try {
+                  e.use("bad_use.chai");
+                  out = "=void";
+                } catch (...) {
+                  out = "!" + describe_current_exception(&e);
+                }
+              }
             } else if (k == "calluse") {
               out = eval_show(e, "from_use(1)");
             } else if (k == "getstate") {
@@ -530,7 +554,7 @@ namespace {
       std::map<std::string, int64_t> winner; // key -> value of the successful Add / last possible
       std::map<std::string, size_t> klass_def;
       std::map<std::string, int64_t> unique_global;
-      int use_ops = 0;
+      int use_ops = 0, usebad_ops = 0;
       for (size_t i = 0; i < ops.size(); ++i) {
         const J &op = ops[i];
         const int a = int(op.at("a").num());
@@ -618,6 +642,9 @@ namespace {
           ++use_ops;
           if (out == "=void" || out == "=undef") add_op(LinOp::Set, 1001, true);
           else bad("use() failed");
+        } else if (k == "usebad") {
+          ++usebad_ops;
+          if (out != "!Boxed_Value|s:bad file") bad("use() of a file that throws must deliver the file's exception");
         } else if (k == "calluse") {
           read_int(0);
         } else if (k == "getstate") {
@@ -726,6 +753,13 @@ namespace {
       }
       if (use_ops > 1) {
         r.counters["probe_multiple_use_calls"] += 1;
+      }
+      if (bad_bumps.load() != 2 * usebad_ops) {
+        r.fail("failed-use-recorded-as-used", "bad_use.chai throws half-way: " + std::to_string(usebad_ops) + " use() calls must each evaluate it up to the throw, counted "
+                                                  + std::to_string(bad_bumps.load()) + " side effects instead of " + std::to_string(2 * usebad_ops));
+      }
+      if (usebad_ops > 1) {
+        r.counters["probe_multiple_failing_use_calls"] += 1;
       }
       if (ar.stats.blocked > 0) {
         r.counters["probe_actor_blocked_on_mutex"] += 1;
